@@ -200,14 +200,14 @@ def check(desc, col):
     # Fronts are compared by mutual weak coverage within the float32 tolerance, not by exact vector equality: equal usages
     # reach the tables once as float32 and once as float64 (0.054054055 vs 0.054054054), so an exact O(n^2) front keeps a
     # point that the joiner rightly treats as dominated.  lost = a reference-front point that no joined point covers;
-    # extra = a joined point that is not the vector of any tuple, or that a reference-front point dominates by more than the tolerance.
+    # extra = a joined point that is not the vector of any tuple, or that a reference-front point dominates exactly (<= in every objective, even in float32) and by more than the tolerance in one.
     def _covers(w, v):
         return len(w) == len(v) and all(x <= y * (1 + 1e-5) + 1e-9 for x, y in zip(w, v))
 
     for order, front, ref_front, dist in zip(orders, fronts, ref_fronts, all_vecs):
         lost = [v for v in ref_front if not any(_covers(w, v) for w in front)]
         extra = [v for v in front if not any(_same(v, w) for w in dist)
-                 or any(_covers(w, v) and any(x < y * (1 - 1e-4) - 1e-9 for x, y in zip(w, v)) for w in ref_front)]
+                 or any(all(x <= y for x, y in zip(w, v)) and any(x < y * (1 - 1e-4) - 1e-9 for x, y in zip(w, v)) for w in ref_front)]
         if lost or extra:
             raise Violation(f"join (order {order}) of {[len(chosen[e]) for e in einsums]} rows differs from the combination of all "
                             f"{len(tuples)} tuples: missing {lost[:4]}, extra {extra[:4]}; reference front {ref_front[:6]}, joined "
